@@ -154,6 +154,16 @@ def project(b, sid, kind, cls, hex_tie, ref, rot, R, M_rot, expected, also_ref=N
         return ev, {}
     f = {}
     pairs = [(rot, expected)] + ([(ref, also_ref[1])] if also_ref else [])
+    try:
+        return _project_finite(b, ev, f, pairs, ref, rot, R, M_rot, also_ref)
+    except (OverflowError, FloatingPointError, ZeroDivisionError):
+        # finite but absurd output (e.g. uninitialised memory of magnitude 1e300): arithmetic on it overflows
+        ev["finite"] = False
+        ev["raised"] = "output of absurd magnitude"
+        return ev, {}
+
+
+def _project_finite(b, ev, f, pairs, ref, rot, R, M_rot, also_ref):
     f["kDev"] = max(_rel(o["bulk_modulus"], e["K"]) for o, e in pairs)
     f["gDev"] = max(_rel(o["shear_modulus"], e["G"]) for o, e in pairs)
     f["anisoDev"] = max(_rel(o["percent_anisotropy"], e["pct"]) for o, e in pairs)
